@@ -59,10 +59,26 @@ Definition py_str (v : value) : str :=
   | VFloat ip f => dec_N ip ++ [46] ++ f
   end.
 
-(* type_(value); None = the constructor raises (ValueError) *)
+(* _to_bool: the words ON / OFF / TRUE / FALSE / 1 / 0 given as strings mean what they say (any case), any other string
+   is refused; everything else by its truth value *)
+Definition s_on : str := [111; 110].
+Definition s_off : str := [111; 102; 102].
+Definition s_true : str := [116; 114; 117; 101].
+Definition s_false : str := [102; 97; 108; 115; 101].
+Definition to_bool (v : value) : option bool :=
+  match v with
+  | VStr s =>
+      let w := lower s in
+      if str_eqb w s_on || str_eqb w s_true || str_eqb w [49] then Some true
+      else if str_eqb w s_off || str_eqb w s_false || str_eqb w [48] then Some false
+      else None
+  | _ => Some (truthy v)
+  end.
+
+(* type_(value); None = the constructor raises (ValueError) / the value is refused *)
 Definition coerce (t : vty) (v : value) : option value :=
   match t with
-  | TBool => Some (VBool (truthy v))
+  | TBool => match to_bool v with Some b => Some (VBool b) | None => None end
   | TStr => Some (VStr (py_str v))
   | TInt =>
       match v with
